@@ -27,7 +27,9 @@ KnownKey(n) == CASE n = "RepositoryUrl" -> REPO
                  [] n = "gem::Platform" -> <<112,108,97,116,102,111,114,109>>                   \* platform
                  [] n = "maven::Classifier" -> <<99,108,97,115,115,105,102,105,101,114>>         \* classifier
                  [] n = "maven::Type" -> <<116,121,112,101>>                                      \* type
-KnownNames == {"RepositoryUrl", "DownloadUrl", "VcsUrl", "FileName", "gem::Platform", "maven::Classifier", "maven::Type"}
+                 \* a caller's own KnownQualifierKey type whose KEY is valid but not lower-case: stored and found as "build_tag"
+                 [] n = "user::BuildTag" -> <<66,117,105,108,100,95,84,97,103>>                    \* Build_Tag
+KnownNames == {"RepositoryUrl", "DownloadUrl", "VcsUrl", "FileName", "gem::Platform", "maven::Classifier", "maven::Type", "user::BuildTag"}
 Some(x) == [some |-> TRUE, v |-> x]
 None == [some |-> FALSE]
 QErr == [ok |-> FALSE, err |-> "InvalidQualifier"]
@@ -87,9 +89,9 @@ MapApply(m, op, tab) ==
     [] op[1] = "remove_typed_repo" -> R(FnDel(m, REPO), [unit |-> TRUE])
     [] op[1] = "get_typed_repo" -> R(m, IF REPO \in DOMAIN m THEN Some(m[REPO]) ELSE None)
     \* generic typed accessors: op = <<name, RustTypeName, value?>>
-    [] op[1] = "insert_typed" -> R(FnSet(m, KnownKey(op[2]), op[3]), [unit |-> TRUE])
-    [] op[1] = "remove_typed" -> R(FnDel(m, KnownKey(op[2])), [unit |-> TRUE])
-    [] op[1] = "get_typed" -> R(m, IF KnownKey(op[2]) \in DOMAIN m THEN Some(m[KnownKey(op[2])]) ELSE None)
+    [] op[1] = "insert_typed" -> R(FnSet(m, LK(KnownKey(op[2])), op[3]), [unit |-> TRUE])
+    [] op[1] = "remove_typed" -> R(FnDel(m, LK(KnownKey(op[2]))), [unit |-> TRUE])
+    [] op[1] = "get_typed" -> R(m, IF LK(KnownKey(op[2])) \in DOMAIN m THEN Some(m[LK(KnownKey(op[2]))]) ELSE None)
     \* documented panic: a typed qualifier whose declared KEY is invalid ("!")
     [] op[1] = "insert_typed_badkey" -> R(m, Panic)
     [] op[1] = "try_get_typed_checksum" ->
@@ -182,7 +184,7 @@ VecApply(vec, op, tab) ==
     [] op[1] = "remove_typed_repo" -> LET s == Search(vec, REPO, tab) IN V(IF s.found THEN DelAt(vec, s.idx) ELSE vec, [unit |-> TRUE])
     [] op[1] = "get_typed_repo" -> LET s == Search(vec, REPO, tab) IN V(vec, IF s.found THEN Some(vec[s.idx][2]) ELSE None)
     [] op[1] = "insert_typed" -> LET kk == KnownKey(op[2])  s == Search(vec, kk, tab) IN
-                                 V(IF s.found THEN SetAt(vec, s.idx, op[3]) ELSE InsAt(vec, s.idx, <<kk, op[3]>>), [unit |-> TRUE])
+                                 V(IF s.found THEN SetAt(vec, s.idx, op[3]) ELSE InsAt(vec, s.idx, <<IntoKey(kk), op[3]>>), [unit |-> TRUE])
     [] op[1] = "remove_typed" -> LET s == Search(vec, KnownKey(op[2]), tab) IN V(IF s.found THEN DelAt(vec, s.idx) ELSE vec, [unit |-> TRUE])
     [] op[1] = "get_typed" -> LET s == Search(vec, KnownKey(op[2]), tab) IN V(vec, IF s.found THEN Some(vec[s.idx][2]) ELSE None)
     \* insert(KEY, value).unwrap() with an invalid KEY: check_qualifier_key fails, unwrap panics
